@@ -48,6 +48,7 @@ func (c *FnCtx) coerce(st *State, t Term, to types.Type) Term {
 					// boxing a V-sorted concrete value: record its dynamic type
 					d.declFun("dyntype", "V", "Int")
 					st.assume(sImp(sNot(sEq(t.S, "nilV")), sEq(sApp("dyntype", t.S), fmt.Sprint(d.typeTag(t.T)))))
+					c.noteHashable(st, t.T)
 				}
 			}
 		}
@@ -75,6 +76,7 @@ func (c *FnCtx) coerce(st *State, t Term, to types.Type) Term {
 		st.assume(sAnd(sEq(sApp(un, b), t.S), sNot(sEq(b, "nilV"))))
 		if t.T != nil {
 			st.assume(sEq(sApp("dyntype", b), fmt.Sprint(d.typeTag(t.T))))
+			c.noteHashable(st, t.T)
 		}
 		return Term{S: b, Sort: sV, T: to}
 	}
@@ -670,6 +672,7 @@ func (c *FnCtx) mapInit(st *State, m Term, mt *types.Map) {
 }
 
 func (c *FnCtx) mapRead(st *State, m Term, mt *types.Map, k Term) (val Term, ok Term) {
+	c.hashableKey(st, mt, k, "read")
 	dom, valA, _, _ := c.mapArrs(st, mt)
 	in := sSel(sSel(dom.S, m.S), k.S)
 	vs := valA.Sort.Elem.Elem
@@ -699,12 +702,14 @@ func (c *FnCtx) mapWrite(st *State, m Term, mt *types.Map, k, v Term, pos token.
 	if c.safety && !c.isKnownNonNil(st, m) {
 		c.oblige(st, "nil-map-write", "", pos, sNot(sEq(m.S, "nilV")), "assignment to entry in nil map")
 	}
+	c.hashableKey(st, mt, k, "write")
 	dom, val, dk, vk := c.mapArrs(st, mt)
 	c.heapSet(st, dk, Term{S: sSto(dom.S, m.S, sSto(sSel(dom.S, m.S), k.S, "true")), Sort: dom.Sort})
 	c.heapSet(st, vk, Term{S: sSto(val.S, m.S, sSto(sSel(val.S, m.S), k.S, v.S)), Sort: val.Sort})
 }
 
 func (c *FnCtx) mapDelete(st *State, m Term, mt *types.Map, k Term) {
+	c.hashableKey(st, mt, k, "delete")
 	dom, _, dk, _ := c.mapArrs(st, mt)
 	c.heapSet(st, dk, Term{S: sSto(dom.S, m.S, sSto(sSel(dom.S, m.S), k.S, "false")), Sort: dom.Sort})
 }
